@@ -21,7 +21,7 @@ TIERS = {
     "quick": {"targets": 320, "runs": 600, "ref_seeds": [0, 1, 20260924, 4242], "fresh_checks": 6, "redo": 8, "min_budget": 24,
               "chunk": 12, "budget_s": 420, "torchlib": False},
     "thorough": {"targets": 4000, "runs": 24000, "ref_seeds": [0, 1, 2, 3, 7, 1234567, 20260924, 4294967295], "fresh_checks": 40,
-                 "redo": 250, "min_budget": 60, "chunk": 25, "budget_s": 3300, "torchlib": True, "per_family": 10, "ort_models": 200, "ort_per_file": 40, "attention_models": 32, "external_families": 23, "composed_models": 100, "op_families": 200},
+                 "redo": 250, "min_budget": 60, "chunk": 25, "budget_s": 3300, "torchlib": True, "per_family": 10, "ort_models": 200, "ort_per_file": 40, "attention_models": 32, "script_twins": 40, "external_families": 23, "composed_models": 100, "op_families": 200},
 }
 REF_PRE_SKEW = [0, 3, 5, 1, 2, 7, 11, 13]   # pre-import heap skew of the i-th reference environment
 PRE_SKEWS = [0, 0, 1, 2, 3, 5, 7, 11, 13, 101]
@@ -122,6 +122,24 @@ def object_key(op: dict) -> str:
                   op.get("answer")])
 
 
+_OPT_CLASS = {"proto": "optimize", "ir": "optimize", "positional": "optimize", "fold_pass": "fold", "fold": "fold"}
+
+
+def group_key(op: dict) -> str:
+    """Which *configuration* an operation goes through, by whatever entry point (ModelProto / ir.Model function API, a
+    long-lived pass object, a framework-API wrapper): state kept per configuration behind the entry points — a memoised pass,
+    a module-level converter — is shared by all of them."""
+    if op["kind"] == "translate":
+        return "translate"
+    api = str(op.get("api"))
+    if op["kind"] == "optimize":
+        cls = "optimize" if api.startswith("fw:") else _OPT_CLASS.get(api, api)
+        return jdump(["optimize", cls, None if api.startswith("fw:") else op.get("opts"), op.get("answer")])
+    if op["kind"] == "convert":
+        return jdump(["convert", op.get("target"), bool(op.get("fallback")) or api.startswith(("fw:torch_2_6", "fw:torch_2_9"))])
+    return jdump([op["kind"], op.get("rules")])
+
+
 def gen_targets(seed: int, tier: dict, pools) -> list[dict]:
     """Targets = (model x object config) operations plus script translations; structured so that every
     long-lived object is shared by several targets."""
@@ -139,6 +157,19 @@ def gen_targets(seed: int, tier: dict, pools) -> list[dict]:
     n_tr = n * 3 // 10
     for i in range(n_tr):
         add(pools.op_translate(rng.sub("t", i)))
+    # script twins: the same text, line for line, except for the values of module-level constants, all written to the same
+    # real file one after the other (an edited module that is run again; a notebook cell): anything keyed by file name,
+    # line number or code object across translations shows
+    from dsim.c14 import genscripts
+
+    for i in range(tier.get("script_twins", 5)):
+        tag = f"tw{rng.sub('twin-tag', i).below(10**6)}"
+        for j in range(3 if i % 2 else 2):
+            g = genscripts.gen_script(rng.sub("twin-structure", i), tag, consts=rng.sub("twin-consts", i, j), const_exprs=True)
+            op = {"kind": "translate", "src": g["src"], "fns": g["fns"], "family": f"twins:{i}", "shared_filename": True}
+            if j == 1:
+                op["repeat"] = 1
+            add(with_id(op))
     n_models = max(8, (n - n_tr) // 4)
     fams = pools.text_families()
     from dsim.c14 import genmodels
@@ -272,10 +303,12 @@ def gen_targets(seed: int, tier: dict, pools) -> list[dict]:
     script_slots = script_slots[:tier.get("script_models", 8)]
     for i in range(len(gen_slots) + len(script_slots) + max(8, n_models // 3)):
         r = rng.sub("m", i)
+        member_idx = None
         if i < len(gen_slots):
             f, text = genmodels.gen_model(r.sub("gen"), gen_slots[i], member=gen_member[i],
                                           offset=rng.sub("variant-offset", gen_slots[i]).below(64))
             m = {"pool": "text", "text": text, "family": f}
+            member_idx = gen_member[i]
             if r.sub("node-meta").chance(0.35):
                 m["node_meta"] = True
         elif i < len(gen_slots) + len(script_slots):
@@ -284,12 +317,13 @@ def gen_targets(seed: int, tier: dict, pools) -> list[dict]:
         else:
             m = pools.model_ref(r, family=r.choice(fams) if r.chance(0.6) else None)
         fam = m.pop("family", None) or m.get("path", "")
+        mem = {} if member_idx is None else {"member": member_idx}
         for kind, params in FAMILY_AFFINITY_3.get(fam, [])[:1 + r.below(3)]:
-            add(with_id({"kind": kind, "model": m, "family": fam, **copy.deepcopy(params)}))
+            add(with_id({"kind": kind, "model": m, "family": fam, **mem, **copy.deepcopy(params)}))
         k = r.randint(3, 4) if fam in ("gen:rms_norm", "gen:fold_chain", "gen:user_rules") else r.randint(2, 4) if fam.startswith("gen:") else r.randint(3, 5)
         if fam.startswith("gen:") and r.chance(0.35):
             # version conversion through a long-lived pass, to a target that is (or is not) the model's own version
-            add(with_id({"kind": "convert", "model": m, "family": fam, "target": r.choice([18, 20, 23]), "fallback": False, "api": "pass"}))
+            add(with_id({"kind": "convert", "model": m, "family": fam, **mem, "target": r.choice([18, 20, 23]), "fallback": False, "api": "pass"}))
         for j in range(k):
             _, kind, params = r.weighted([(c, c[0]) for c in OBJECT_CONFIGS])
             if j == 0 and fam.startswith("script:") and "/fusion/" in fam:
@@ -306,7 +340,7 @@ def gen_targets(seed: int, tier: dict, pools) -> list[dict]:
                 kind, params = "rewrite", {"rules": FAMILY_AFFINITY[fam], "api": "apply"}
             if kind == "convert" and m["pool"] == "onnx_backend" and r.chance(0.5):
                 continue
-            add(with_id({"kind": kind, "model": m, "family": fam, **copy.deepcopy(params)}))
+            add(with_id({"kind": kind, "model": m, "family": fam, **mem, **copy.deepcopy(params)}))
     if tier.get("torchlib"):
         out.append(with_id({"kind": "torchlib", "family": "torchlib"}))
     return out
@@ -344,7 +378,19 @@ def _pair_run(rng: Rng, pool: list[dict], failing: set, length: int, changing: s
                 a["fault"] = {"frac": rng.below(10**6) / 10**6}
             # else: A completes normally — state stashed on the shared object by a *successful* predecessor
         others = [t for t in pool if jdump(t.get("model")) != jdump(a.get("model"))] or pool
-        b = copy.deepcopy(rng.choice(others))
+        # family members carry their index; neighbours in a family are the variants declared next to each other (a member
+        # the rule / evaluator cannot handle next to its twin that it can): prefer a neighbour of A as B
+        near = [t for t in others if a.get("member") is not None and t.get("member") is not None and abs(t["member"] - a["member"]) == 1]
+        b = copy.deepcopy(rng.choice(near if near and rng.chance(0.4) else others))
+        # state that accumulates (counters, thresholds, bounded caches) shows only on the n-th occurrence: A two or three
+        # times in a row before B
+        reps = rng.weighted([(1, 6), (2, 3), (3, 1)])
+        for j in range(reps - 1):
+            if len(ops) + 3 <= 9:
+                again = copy.deepcopy(a)
+                if rng.chance(0.5):
+                    again.pop("fault", None)
+                ops.append(again)
         ops += [a, b]
     return ops
 
@@ -369,7 +415,9 @@ def gen_runs(seed: int, tier: dict, targets: list[dict], repo: str, failing: set
     by_family: dict = collections.defaultdict(list)
     by_kind: dict = collections.defaultdict(list)
     by_obj: dict = collections.defaultdict(list)
+    by_group: dict = collections.defaultdict(list)
     for t in targets:
+        by_group[group_key(t)].append(t)
         by_family[t.get("family")].append(t)
         by_kind[t["kind"]].append(t)
         by_obj[object_key(t)].append(t)
@@ -380,8 +428,10 @@ def gen_runs(seed: int, tier: dict, targets: list[dict], repo: str, failing: set
     if "gen:external" in gfams:
         gfams += ["gen:external"] * 2   # three turns in the rotation: its template needs both halves to be relevant
     custom_scripts = [t for t in by_kind["translate"] if "CUSTOM = Opset(" in t.get("src", "")]
+    twin_fams = sorted(f for f in by_family if str(f).startswith("twins:") and len(by_family[f]) >= 2)
     oplike_fams = sorted(f for f in by_family if str(f).startswith("oplike:"))
     stateful = [k for k in objs if any(a in k for a in ('"fold_pass"', '"fold_pass_cb"', '"pass"', '"apply"'))]
+    groups = sorted(k for k, v in by_group.items() if k != "translate" and len(v) >= 3 and len({object_key(t) for t in v}) >= 2)
     for r in range(tier["runs"]):
         rng = Rng(seed).sub("run", r)
         env = {
@@ -432,8 +482,14 @@ def gen_runs(seed: int, tier: dict, targets: list[dict], repo: str, failing: set
             elif len(pool) >= 2:
                 template, env["template"] = "pairs_family", "pairs_family"
                 ops = _pair_run(rng, pool, failing, length, changing)
+        elif slot == 6 and groups:
+            # the same configuration through different entry points (function API on a ModelProto / on an ir.Model, a
+            # long-lived pass object, a framework wrapper)
+            gk = groups[(r // 10) % len(groups)]
+            template, env["template"] = "pairs_configuration", "pairs_configuration"
+            ops = _pair_run(rng, by_group[gk], failing, length, changing)
         elif slot in (1, 3, 6) and stateful:
-            ob = stateful[(3 * (r // 10) + (1, 3, 6).index(slot)) % len(stateful)]
+            ob = stateful[(2 * (r // 10) + (1, 3, 6).index(slot) % 2) % len(stateful)]
             if len(by_obj[ob]) >= 2:
                 template, env["template"] = "pairs_object", "pairs_object"
                 ops = _pair_run(rng, by_obj[ob], failing, length, changing)
@@ -447,6 +503,18 @@ def gen_runs(seed: int, tier: dict, targets: list[dict], repo: str, failing: set
                 ops = [copy.deepcopy(rng.choice(by_family[fam]))] + [copy.deepcopy(t) for t in rng.sample(models, min(3, len(models)))]
                 if rng.chance(0.3):
                     ops = ops[1:] + ops[:1] + [copy.deepcopy(ops[1])]   # models first, the script, a model again
+        elif slot == 2 and twin_fams and (r // 10) % 2 == 1:
+            # an edited module run again: the twins of one script through the same file, in some order, one of them once more
+            template, env["template"] = "edited_module", "edited_module"
+            members = list(by_family[twin_fams[(r // 20) % len(twin_fams)]])
+            rng.shuffle(members)
+            ops = [copy.deepcopy(t) for t in members]
+            if rng.chance(0.5):
+                ops.insert(rng.below(len(ops) + 1), copy.deepcopy(rng.choice(by_kind["translate"])))
+            ops.append(copy.deepcopy(ops[0]))
+            for op in ops[:-1]:
+                if rng.chance(0.15):
+                    op["fault"] = {"frac": rng.below(10**6) / 10**6}
         elif slot == 2 and len(custom_scripts) >= 2:
             # scripts whose helpers live in the same custom opset domain at different versions (Opset singletons are
             # process-wide), plus revisits of long-lived OnnxFunctions
@@ -884,7 +952,9 @@ def check(tier_name: str, seed: int, max_runs: int | None = None) -> int:
         pools = Pools(repo)
         targets = gen_targets(seed, tier, pools)
         tmap = {t["id"]: t for t in targets}
+        phase_s = {"warm_up_and_generation": round(sw.elapsed(), 1)}
         ref, errs, spec_of = reference_phase(targets, tier, pyc, repo, workers)
+        phase_s["reference_processes"] = round(sw.elapsed() - sum(phase_s.values()), 1)
         harness_errors += errs
         h0 = tier["ref_seeds"][0]
         candidates: list[dict] = []   # {"class", "sig", "doc"}
@@ -962,6 +1032,7 @@ def check(tier_name: str, seed: int, max_runs: int | None = None) -> int:
                     else:
                         f["k"], f["aim"] = (int(f["frac"] * calls) if calls else 0), "uniform"
         outs = _par(runs, pyc, workers, 600, None)
+        phase_s["history_runs"] = round(sw.elapsed() - sum(phase_s.values()), 1)
         agg = collections.Counter()
         fault_sites: set = set()
         states: set = set()
@@ -1103,7 +1174,7 @@ def check(tier_name: str, seed: int, max_runs: int | None = None) -> int:
                                      "heap history replayed bit-for-bit (needed only to replay id()-order-dependent failures)"},
         "runs_per_hour": int(agg["runs"] / wall * 3600) if wall else 0,
         "simulated_time": "n/a: no clock is read by the code under test; 0 timers. Logical steps = operations.",
-        "warm_up_s": round(warm_s, 1),
+        "warm_up_s": round(warm_s, 1), "phase_wall_s": phase_s,
         "known_findings_hit": dict(known_hits),
         "harness_errors": harness_errors[:10],
         "real_vs_stub": {"real": ["CPython", "onnxscript (from the working tree)", "onnx_ir", "onnx", "numpy", "protobuf"],
